@@ -489,6 +489,7 @@ type bufState struct {
 	checked        int
 	types          map[string]int
 	decodeFailures []string
+	mutated        map[string]bool // shape-mutated wires: the decoder may legitimately refuse them
 }
 
 var (
@@ -599,8 +600,15 @@ func (st *bufState) start() {
 				private := append([]byte(nil), buf[:n]...)
 				refMsg, err := decodeAny(v6, private)
 				if err != nil {
+					if st.mutated[string(private)] {
+						s.Probe("shape-mutated-input-refused-by-decoder")
+						continue
+					}
 					st.decodeFailures = append(st.decodeFailures, fmt.Sprintf("read %d (%d bytes, v6=%v): %v", k, n, v6, err))
 					continue
+				}
+				if st.mutated[string(private)] {
+					s.Probe("shape-mutated-input-accepted-by-decoder")
 				}
 				m, err := decodeAny(v6, buf[:n]) // the decode under test: from the shared, reusable buffer
 				if err != nil {
@@ -636,6 +644,23 @@ func (st *bufState) start() {
 		for i := 0; i < ndgrams; i++ {
 			at += pick(t, 0, 0, ms(1), ms(2), ms(5))
 			it := corpus(t)
+			if t.Coin(1, 3) {
+				// a shape nobody listed: mutate the TLV structure of the corpus item
+				var w string
+				if it.v6 {
+					it.wire, w = mutateV6Top(it.wire, t)
+				} else {
+					it.wire, w = mutateV4(it.wire, t)
+				}
+				if w != "" {
+					it.name += " " + w
+					if st.mutated == nil {
+						st.mutated = map[string]bool{}
+					}
+					st.mutated[string(it.wire)] = true
+					s.Fault("shape-mutation")
+				}
+			}
 			copies := 1
 			if t.Coin(1, 8) {
 				copies = 2
